@@ -365,7 +365,9 @@ class Quaternion(SMUserList):
         """
         norm = self.norm()
         s = math.log(norm)
-        v = math.acos(self.s / norm) * base.unitvec(self.v)
+        # atan2 rather than acos(s / norm): the arc cosine of a number next to 1
+        # has lost a small angle (relative error 5e-6 for |v| = 3e-6)
+        v = math.atan2(base.norm(self.v), self.s) * base.unitvec(self.v)
         return Quaternion(s=s, v=v)
 
     def exp(self):
